@@ -852,6 +852,13 @@ impl Run {
                 if shown > 0 && !was_active {
                     // a period starts: baseline = exact reward already credited to the entry (normally 0)
                     let r0 = rs.stakes.get(&(m.delegators[d].clone(), v.clone())).map(|x| x.1.clone()).unwrap_or_else(Q::zero);
+                    // ... which is only legitimate for a delegation that stayed positive below one token (a slashed
+                    // remainder): where nothing at all was staked before this operation, the new period starts at 0
+                    let nothing_staked_before = self.model.pairs.get(&key).map(|p| p.hi == Q::zero()).unwrap_or(true);
+                    rep.bump(if nothing_staked_before { "stk/reward_periods_started_from_nothing" } else { "stk/reward_periods_started_from_a_remainder" });
+                    if nothing_staked_before && r0 > eps() {
+                        fails.push(("C15".into(), "new-delegation-starts-with-rewards-it-did-not-earn".into(), format!("{:?}: delegator {} at {}: nothing was staked before, yet the entry starts with {:.9} credited", op, d, v, r0.to_f64())));
+                    }
                     let p = m.pair(d, v);
                     p.active = true;
                     p.r0 = r0;
@@ -1164,11 +1171,31 @@ pub fn run_random(rng: &mut Rng, len: usize, mix: Mix, with_twin: bool, rep: &mu
     }
     let mut ops = vec![];
     for _ in 0..len {
-        let op = gen_op(rng, &run.model, mix);
-        ops.push(op.clone());
-        let fails = run.step(&op, rep);
-        if !fails.is_empty() {
-            return (Case { params, ops }, fails);
+        // now and then a delegator leaves a validator altogether after rewards have accrued (undelegating or
+        // redelegating everything it shows there) and comes back with a fresh delegation
+        let existing: Vec<(usize, String)> = run.model.pairs.iter().filter(|(_, p)| p.lo > 0).map(|(k, _)| k.clone()).collect();
+        let batch: Vec<SOp> = if !existing.is_empty() && rng.chance(1, 25) {
+            let (d, v) = rng.pick(&existing).clone();
+            let all = run.model.shown(d, &v);
+            let denom = run.model.denom.clone();
+            let secs = *rng.pick(&[86_400u64, 30 * 86_400, 400 * 86_400]);
+            let others: Vec<String> = run.model.vals.iter().filter(|x| **x != v).cloned().collect();
+            let leave = if !others.is_empty() && rng.chance(1, 2) {
+                SOp::Redelegate { d, src: v.clone(), dst: rng.pick(&others).clone(), amount: all, denom: denom.clone() }
+            } else {
+                SOp::Undelegate { d, v: v.clone(), amount: all, denom: denom.clone() }
+            };
+            rep.bump("stk/leave_and_return_motifs");
+            vec![SOp::Advance { nanos: secs * NANOS, pieces: vec![secs * NANOS], set: false }, leave, SOp::Delegate { d, v: v.clone(), amount: rng.range_u128(1, 5000), denom }, SOp::Withdraw { d, v }]
+        } else {
+            vec![gen_op(rng, &run.model, mix)]
+        };
+        for op in batch {
+            ops.push(op.clone());
+            let fails = run.step(&op, rep);
+            if !fails.is_empty() {
+                return (Case { params, ops }, fails);
+            }
         }
     }
     finish(&run, &ops, rep);
@@ -1340,6 +1367,27 @@ pub fn templates() -> Vec<(String, Case)> {
                     SOp::Undelegate { d: 2, v: "validator101".into(), amount: 500, denom: t.clone() },
                     SOp::Slash { v: "validator128".into(), p: "0.5".into() },
                     adv(61),
+                ],
+            },
+        ),
+        (
+            // a delegator leaves a validator with unwithdrawn rewards (redelegating / undelegating everything) and
+            // comes back: the new delegation starts without the rewards of the old one
+            "leave-and-return".into(),
+            Case {
+                params: p.clone(),
+                ops: vec![
+                    SOp::Delegate { d: 0, v: v0.clone(), amount: 1000, denom: t.clone() },
+                    SOp::Delegate { d: 1, v: v0.clone(), amount: 700, denom: t.clone() },
+                    adv(365 * 86400),
+                    SOp::Redelegate { d: 0, src: v0.clone(), dst: v1.clone(), amount: 1000, denom: t.clone() },
+                    SOp::Undelegate { d: 1, v: v0.clone(), amount: 700, denom: t.clone() },
+                    adv(180 * 86400),
+                    SOp::Redelegate { d: 0, src: v1.clone(), dst: v0.clone(), amount: 500, denom: t.clone() },
+                    SOp::Delegate { d: 1, v: v0.clone(), amount: 10, denom: t.clone() },
+                    adv(365 * 86400),
+                    SOp::Withdraw { d: 0, v: v0.clone() },
+                    SOp::Withdraw { d: 1, v: v0.clone() },
                 ],
             },
         ),
